@@ -14,7 +14,8 @@
 (*   - the first action is a signature by <<E1, K1, P1>>;                  *)
 (*   - key P3 is only used once P2 has been used;                          *)
 (*   - after the first action ForeignSign is only taken by the entity that *)
-(*     did not sign first ("another entity adds its signature").           *)
+(*     did not sign first ("another entity adds its signature"); it may    *)
+(*     also add an entry that is no signature at all (key Junk).           *)
 (* Starts whose distinguishing feature can only matter to the first        *)
 (* signature carry a small depth budget (start.depth); the one start that  *)
 (* is explored five actions deep allows two signatures (start.signs).      *)
@@ -66,6 +67,7 @@ GenNext ==
     \/ /\ hist # <<>>
        /\ \/ \E e \in Entities, kid \in KeyIDs, k \in Keys : KeyOK(k) /\ Sign(e, kid, k)
           \/ \E kid \in KeyIDs, k \in Keys : KeyOK(k) /\ ForeignSign("E2", kid, k)
+          \/ \E kid \in KeyIDs : ForeignSign("E2", kid, Junk)
           \/ \E m \in PlainMembers, v \in Vals : Mutate(m, v) \/ Insert(m, v)
           \/ \E m \in NestedMembers, v \in NVals : NestedEdit(m, v) \/ Insert(m, v)
           \/ \E m \in PlainMembers \cup NestedMembers : Delete(m)
